@@ -475,6 +475,9 @@ func spawn(p *Prop, o *opts, journal string) (*child, error) {
 		cmd.Env = append(cmd.Env, "GORACE=halt_on_error=0 log_path="+ef.Name()+".race")
 	}
 	cmd.Stderr = ef
+	if os.Getenv("FW_DEBUG") != "" {
+		cmd.Stderr = os.Stderr
+	}
 	in, _ := cmd.StdinPipe()
 	outp, _ := cmd.StdoutPipe()
 	cmd.SysProcAttr = &syscall.SysProcAttr{Setpgid: true, Pdeathsig: syscall.SIGKILL}
